@@ -19,8 +19,12 @@ func newLazyState() *lazyState { return &lazyState{seen: map[int64]bool{}} }
 
 // noteFlush adds the value ranges of the newest flush.
 func (l *lazyState) noteFlush(w *World) {
-	top := w.durable[len(w.durable)-1]
-	d, err := DecodeAt(w.file.B, top.fileLen, func(name string) int {
+	l.addDurable(w.file.B, w.durable[len(w.durable)-1])
+}
+
+// addDurable adds the value ranges reachable from one flushed state.
+func (l *lazyState) addDurable(img []byte, top Durable) {
+	d, err := DecodeAt(img, top.fileLen, func(name string) int {
 		if mc := top.ms.Colls[name]; mc != nil {
 			return mc.Cmp
 		}
